@@ -78,7 +78,7 @@ Qed.
 Lemma lockfree_free_reuse_proof m ops l1 l2 off req req2 :
   Forall (legal m) ops -> live (final Fixed m ops) = l1 ++ (off, req) :: l2 ->
   exists p', dealloc Fixed (pl (final Fixed m ops)) (Z.of_N off) req = (true, p') /\
-    (align_size req <= FAST_BIN_THRESHOLD -> 0 < req2 -> req2 + 7 < W64 ->
+    (align_size req <= FAST_BIN_THRESHOLD -> 0 < req2 -> req2 < W63 ->
      bin_of (align_size req2) = bin_of (align_size req) ->
      fst (alloc Fixed p' req2) = Some off).
 Proof.
@@ -88,13 +88,13 @@ Proof.
   destruct HI as [Hlen _ Hlive _ _]. rewrite Hl in Hlive. apply Forall_app in Hlive as [_ Hl2].
   pose proof (Forall_inv Hl2) as He. unfold live_ok in He. destruct He as (Hpos & Hr64 & _).
   revert Hd. unfold dealloc.
-  destruct (N.eqb_spec req 0); [lia|]. destruct (N.leb_spec W64 (req + 7)); [lia|].
+  destruct (N.eqb_spec req 0); [lia|]. destruct (N.leb_spec W63 req); [lia|].
   apply N.leb_le in Hsmall. rewrite Hsmall.
   destruct (bin_of (align_size req)) as [b|] eqn:Hb.
   2:{ intros HH; inversion HH. }
   destruct ((0 <=? Z.of_N off)%Z && (Z.of_N off <? Z.of_N (msize (pl s)))%Z); intros HH; inversion HH; subst p'. clear HH.
   pose proof (bin_of_spec _ _ Hb) as (Hb64 & _ & _ & _ & Hct).
-  unfold alloc. destruct (N.eqb_spec req2 0); [lia|]. destruct (N.leb_spec W64 (req2 + 7)); [lia|].
+  unfold alloc. destruct (N.eqb_spec req2 0); [lia|]. destruct (N.leb_spec W63 req2); [lia|].
   assert (Ha2 : align_size req2 <=? FAST_BIN_THRESHOLD = true).
   { apply N.leb_le. pose proof (bin_of_spec _ _ Hbin) as (_ & Hle & _ & _ & Hc). lia. }
   rewrite Ha2, Hbin. cbn [set_bins bins].
